@@ -413,4 +413,93 @@ func GroupBy
   loop 0 invariant[from]  forall key K :: {kcnt(keyer, slice, rangeindex + 1, key)} kcnt(keyer, slice, rangeindex + 1, key) > 0 ==> (exists j :: 0 <= j && j <= rangeindex && keyer(slice[j]) == key)
   loop 1 invariant -1 <= rangeindex && rangeindex < len(orderedKeys) && fresh(groups) && len(groups) == len(orderedKeys)
   loop 1 invariant forall i :: 0 <= i && i <= rangeindex ==> groups[i].Key == orderedKeys[i] && same(groups[i].Values, m[orderedKeys[i]])
+
+// ---------------------------------------------------------------- C07
+// less is an uninterpreted pure function value; apply(f, a, b) is its result.
+// swo: strict weak order (what any sortedness claim needs); sto: strict total order consistent with ==.
+
+spec swo(f func) bool = (forall a T, b T :: apply(f, a, b) ==> !apply(f, b, a)) && (forall a T, b T, c T :: !apply(f, a, b) && !apply(f, b, c) ==> !apply(f, a, c))
+spec sto(f func) bool = swo(f) && (forall a T, b T :: !apply(f, a, b) && !apply(f, b, a) ==> a == b)
+
+type Sorted(s) invariant s.less != nil && (forall i, j :: 0 <= i && i < j && j < len(s.slice) ==> !apply(s.less, s.slice[j], s.slice[i]))
+
+func Sorted.Len
+  property C07
+  ensures[nil]    s == nil ==> result == 0
+  ensures[nonnil] s != nil ==> result == len(s.slice)
+
+func Sorted.Get
+  property C07
+  panics_iff s == nil || index < 0 || index >= len(s.slice)
+  on_panic ensures unchanged()
+  ensures[elem] result == s.slice[index]
+
+func Sorted.search
+  property C07
+  requires s != nil && inv(s) && swo(s.less)
+  ensures[range] 0 <= result && result <= len(s.slice)
+  ensures[lower] forall k :: 0 <= k && k < result ==> apply(s.less, s.slice[k], value)
+  ensures[upper] forall k :: result <= k && k < len(s.slice) ==> !apply(s.less, s.slice[k], value)
+
+func Sorted.Index
+  property C07
+  requires s != nil && inv(s) && swo(s.less)
+  ensures[found] result == -1 || (0 <= result && result < len(s.slice) && s.slice[result] == value)
+
+func Sorted.Index#sto
+  property C07
+  requires s != nil && inv(s) && sto(s.less)
+  ensures[found]  result == -1 || (0 <= result && result < len(s.slice) && s.slice[result] == value)
+  ensures[first]  result != -1 ==> (forall k :: 0 <= k && k < result ==> s.slice[k] != value)
+  ensures[absent] result == -1 ==> (forall k :: 0 <= k && k < len(s.slice) ==> s.slice[k] != value)
+
+func Sorted.Contains#sto
+  property C07
+  requires s != nil && inv(s) && sto(s.less)
+  ensures[def] result == (exists k :: 0 <= k && k < len(s.slice) && s.slice[k] == value)
+
+func Sorted.Add
+  property C07
+  requires s != nil && inv(s) && swo(s.less)
+  ensures[inv]    inv(s) && s.less == old(s.less)
+  ensures[pos]    0 <= result && result <= old(len(s.slice)) && len(s.slice) == old(len(s.slice)) + 1 && s.slice[result] == value
+  ensures[before] forall k :: 0 <= k && k < result ==> s.slice[k] == old(s.slice[k])
+  ensures[after]  forall k :: result < k && k < len(s.slice) ==> s.slice[k] == old(s.slice[k-1])
+  ensures[lower]  (forall k :: 0 <= k && k < result ==> apply(s.less, s.slice[k], value)) && (forall k :: result < k && k < len(s.slice) ==> !apply(s.less, s.slice[k], value))
+  assigns fields(s), elems(s.slice, 0, len(s.slice) + 1)
+
+func Sorted.RemoveAt
+  property C07
+  requires s == nil || inv(s)
+  panics_iff s == nil || index < 0 || index >= len(s.slice)
+  on_panic ensures unchanged()
+  ensures[inv]    inv(s) && s.less == old(s.less)
+  ensures[len]    len(s.slice) == old(len(s.slice)) - 1
+  ensures[before] forall k :: 0 <= k && k < index ==> s.slice[k] == old(s.slice[k])
+  ensures[after]  forall k :: index <= k && k < len(s.slice) ==> s.slice[k] == old(s.slice[k+1])
+  assigns fields(s), elems(s.slice)
+
+func Sorted.Remove
+  property C07
+  requires s != nil && inv(s) && swo(s.less)
+  ensures[inv]     inv(s) && s.less == old(s.less)
+  ensures[absent]  result == -1 ==> len(s.slice) == old(len(s.slice)) && (forall k :: 0 <= k && k < len(s.slice) ==> s.slice[k] == old(s.slice[k]))
+  ensures[present] result != -1 ==> 0 <= result && result < old(len(s.slice)) && old(s.slice[result]) == value && len(s.slice) == old(len(s.slice)) - 1 && (forall k :: 0 <= k && k < result ==> s.slice[k] == old(s.slice[k])) && (forall k :: result <= k && k < len(s.slice) ==> s.slice[k] == old(s.slice[k+1]))
+  assigns fields(s), elems(s.slice)
+
+func Sorted.Remove#sto
+  property C07
+  requires s != nil && inv(s) && sto(s.less)
+  ensures[absent]  (forall k :: 0 <= k && k < old(len(s.slice)) ==> old(s.slice[k]) != value) ==> result == -1
+  ensures[first]   result != -1 ==> (forall k :: 0 <= k && k < result ==> old(s.slice[k]) != value)
+  ensures[present] (exists k :: 0 <= k && k < old(len(s.slice)) && old(s.slice[k]) == value) ==> result != -1
+  assigns fields(s), elems(s.slice)
+
+func NewSorted
+  property C07
+  requires (forall a E, b E :: less(a, b) ==> !less(b, a)) && (forall a E, b E, c E :: !less(a, b) && !less(b, c) ==> !less(a, c))
+  ensures[inv]    result.less == less && (forall i, j :: 0 <= i && i < j && j < len(result.slice) ==> !less(result.slice[j], result.slice[i]))
+  ensures[len]    len(result.slice) == len(values)
+  ensures[perm]   (forall i :: 0 <= i && i < len(values) ==> 0 <= sortperm[i] && sortperm[i] < len(values) && result.slice[i] == values[sortperm[i]]) && (forall i, j :: 0 <= i && i < j && j < len(values) ==> sortperm[i] != sortperm[j])
+  ensures[fresh]  fresh(result.slice)
 @*/
